@@ -19,8 +19,10 @@ package compilex
 // expressions use numbers of every size and representation.
 
 import (
+	"encoding/json"
 	"fmt"
 	"math"
+	"os"
 	"strings"
 	"testing"
 
@@ -585,6 +587,32 @@ func TestC30(t *testing.T) {
 		"error messages are not compared, only fail vs value",
 	}
 	defer rec.Write()
+
+	// replay of a saved metamorphic pair: {"a": src, "b": src, "args": [literal...]}
+	// both functions are called with the same arguments and must agree
+	if rp := os.Getenv("VERIF_REPLAY"); rp != "" && strings.HasSuffix(rp, ".json") {
+		var pair struct {
+			A, B string
+			Args []string
+		}
+		b, err := os.ReadFile(rp)
+		if err == nil {
+			err = json.Unmarshal(b, &pair)
+		}
+		if err != nil {
+			t.Fatalf("replay: %v", err)
+		}
+		var args []core.Value
+		for _, a := range pair.Args {
+			args = append(args, compile.Constant(a))
+		}
+		ra, rb := compileAndCall(pair.A, args...), compileAndCall(pair.B, args...)
+		rec.Case(true, pair.A)
+		if ra.failed() != rb.failed() || (!ra.failed() && !sameValue(ra.v, rb.v)) {
+			rt.Fail(t, rec, "replay", rp, fmt.Sprintf("the two versions differ\n a: %v\n b: %v", ra, rb))
+		}
+		return
+	}
 
 	rt.Check(t, rec, "shapes", 7000, 200000, func(t *rapid.T) {
 		g := &egen{t: t}
@@ -1304,4 +1332,6 @@ func TestC30(t *testing.T) {
 			rec.Sample("C30_rewrites_"+form, map[string]string{"lit": litSrc, "result(r n x i)": want})
 		}
 	})
+
+	checkPropagation(t, rec)
 }
